@@ -8,15 +8,15 @@ import (
 
 // tcase is one scripted run of a receive loop (also the JSON `case` of a replay file).
 type tcase struct {
-	Kind   string   `json:"kind"`            // "conn" | "req" | "iso" (several connections on one server; chunks = good1, good2, illegal)
-	Side   string   `json:"side,omitempty"`  // conn: "server" | "client"
-	Mode   string   `json:"mode,omitempty"`  // conn: server "pool1"|"go"|"rt", client "plain"|"rt"
-	MaxLen int64    `json:"max_len"`         // value given to protocol.SetMaxPackageLength
-	Chunks []string `json:"chunks"`          // conn: the reads to provoke, in order; req: one buffer
-	Want   []string `json:"want,omitempty"`  // conn: the sent packet list up to the first illegal one (oracle)
-	Closed bool     `json:"closed"`          // conn: an illegal length prefix was sent completely
-	Gen    string   `json:"gen"`             // generator class
-	Chk    string   `json:"chunking"`        // chunking class
+	Kind   string   `json:"kind"`           // "conn" | "req" | "iso" (several connections on one server; chunks = good1, good2, illegal)
+	Side   string   `json:"side,omitempty"` // conn: "server" | "client"
+	Mode   string   `json:"mode,omitempty"` // conn: server "pool1"|"go"|"rt", client "plain"|"rt"
+	MaxLen int64    `json:"max_len"`        // value given to protocol.SetMaxPackageLength
+	Chunks []string `json:"chunks"`         // conn: the reads to provoke, in order; req: one buffer
+	Want   []string `json:"want,omitempty"` // conn: the sent packet list up to the first illegal one (oracle)
+	Closed bool     `json:"closed"`         // conn: an illegal length prefix was sent completely
+	Gen    string   `json:"gen"`            // generator class
+	Chk    string   `json:"chunking"`       // chunking class
 }
 
 func (c *tcase) modelLine() string {
